@@ -1327,6 +1327,9 @@ func genFailures(cases *[]spec, seen map[string]bool, p *hx.Prng, o hx.RunOpts) 
 		{"begin", "openbtree", "find!reg.get#1", "add", "commit"},
 		{"begin", "openbtree", "update", "phase1", "phase2!reg.updnl#1", "rollback", "commit"},
 		{"begin", "openbtree", "close!reg.close#1", "add", "commit"},
+		// a writer without a store whose phase-2 log call fails: panicked before fix fb2f596d (finding C14-F3), now the phase-2 error
+		{"begin", "commit!tlog.add#1", "commit", "begin"},
+		{"begin", "phase1", "phase2!tlog.add#1", "rollback", "commit"},
 	} {
 		addSeq(cases, seen, c)
 	}
